@@ -184,6 +184,13 @@ def run_case(case, obs):
                   'rotate-meta-changed', f'rotate changed meta/visual: {dict(rr.meta)} vs {dict(region.meta)}', 'rot-class-meta')
         obs.check(S.fingerprint(region) == fp0, 'rotate-mutates-original', f'{type(region).__name__}.rotate changed the original object', 'rot-original-untouched')
         obs.check(rr is not region, 'rotate-returns-self', 'rotate returned the same object', 'rot-original-untouched')
+        # the rotated region is a region of its own: no mutable object in common with the original (also for a rotation by exactly 0)
+        ids0, ids1 = S.mutable_ids(region), S.mutable_ids(rr)
+        shared = set(ids0) & set(ids1)
+        obs.check(not shared, 'rotate-result-shares-state', f'{type(region).__name__}.rotate({A!r}): the result shares {[ids0[k] for k in list(shared)[:3]]} with the original',
+                  'rot-original-untouched')
+        if th == 0.0:
+            obs.count('rotations-by-exactly-zero')
         # area
         try:
             a0, a1 = region.area, rr.area
